@@ -229,7 +229,7 @@ PROPS['C08'] = dict(
          'crash states = all operation prefixes + block/card boundary +-1 and random byte cuts inside each fwrite; fault sequences = every operation index x applicable fault kinds; '
          'distinct_nontrivial counts distinct (table, state) and (table, op, fault) pairs',
     assumptions=ASSUME_COMMON + ['a crash leaves a prefix of the stdio operation stream on disk (no reordering below stdio)'],
-    require={'any': {'crash-states': 500, 'crash-states-rejected': 300, 'faults-fired': 100, 'writes-reporting-failure': 80, 'realloc-faults-injected': 5, 'out-of-order-writes': 1, 'syscall-level:faults-fired': 80, 'syscall-level:crash-states': 15, 'syscall-level:writes-reporting-failure': 30}},
+    require={'any': {'crash-states': 500, 'crash-states-rejected': 300, 'faults-fired': 100, 'writes-reporting-failure': 80, 'realloc-faults-injected': 5, 'syscall-level:faults-fired': 80, 'syscall-level:crash-states': 15, 'syscall-level:writes-reporting-failure': 30}},
 )
 
 
